@@ -104,7 +104,7 @@ class ConcurrentTestSuite(unittest.TestSuite):
         try:
             try:
                 test.run(process_result)
-            except Exception:
+            except BaseException:
                 # The run logic itself failed.
                 case = testtools.ErrorHolder("broken-runner", error=sys.exc_info())
                 case.run(process_result)
@@ -190,7 +190,7 @@ class ConcurrentStreamTestSuite:
         try:
             try:
                 test.run(process_result)
-            except Exception:
+            except BaseException:
                 # The run logic itself failed.
                 case = testtools.ErrorHolder(
                     f"broken-runner-'{route_code}'", error=sys.exc_info()
